@@ -6,7 +6,7 @@ Each change is applied to a scratch git worktree of /repo (outside /repo and /ve
 checks run with MYSTIC_VERIF_REPO pointing at it, so /repo itself is never touched and evidence/ is not rewritten."""
 import sys, os, json, subprocess, tempfile, shutil, argparse, glob, time
 ap = argparse.ArgumentParser()
-ap.add_argument('--only', default=None); ap.add_argument('--checks', default=None); ap.add_argument('--seed', default='0')
+ap.add_argument('--only', default=None); ap.add_argument('--checks', default=None); ap.add_argument('--seed', default='0'); ap.add_argument('--diag', action='store_true', help='each change only against the check of its own property')
 a = ap.parse_args()
 V = '/verif'
 ALL = ['C%02d' % i for i in range(1, 21)]
@@ -23,7 +23,7 @@ for n in names:
         r = sh('git -C %s apply %s/seeded/%s/patch.diff' % (wt, V, n))
         if r.returncode: print(n, 'patch does not apply'); continue
         row = matrix.setdefault(n, {})
-        for c in checks:
+        for c in ([n[:3]] if a.diag else checks):
             env = dict(os.environ, MYSTIC_VERIF_REPO=wt, VERIF_SEED=a.seed, PYTHONDONTWRITEBYTECODE='1')
             t0 = time.time()
             r = sh('%s/check %s --tier quick' % (V, c), env=env, timeout=3600)
